@@ -49,6 +49,11 @@ def unknown_ie(rng):
     if r < 0.15 and twinless():
         ent, i = rng.choice(twinless())
         return G.IE(ent, i, 0, ln if rng.random() < 0.7 else rng.choice([1, 2, 4, 8]), "")
+    if r < 0.27:
+        # the id AND the length of a registry element, under an enterprise that does not have it: only the enterprise
+        # number tells the two apart (see the identity-swapped predecessor in gen_cases)
+        twin = rng.choice(G.registry_supported())
+        return G.IE(rng.choice([55555, 4294967295, 1]), twin.id, 0, twin.len, "")
     if r < 0.4:
         return G.IE(0, rng.randint(600, 32767), 0, ln, "")
     if r < 0.7:
@@ -119,6 +124,26 @@ def gen_cases(rng, tier):
                 else:
                     other.append(ie)
             pres.append("dec pkt " + W.message(dom, 2, W.template_body(tid, other)).hex())
+        # (d) the SAME (domain, id) defined before with the same element ids AND lengths in the same order, but other
+        #     ENTERPRISE numbers: where the template under test has an unknown element the predecessor had the registry
+        #     element with that id and length (when there is one), where it has a known element the predecessor had an
+        #     unknown one. A re-definition again: nothing of the predecessor's elements may survive it.
+        if rng.random() < 0.3:
+            by_id_len = {}
+            for e in sup:
+                by_id_len.setdefault((e.id, e.len), e)
+            other, swapped = [], False
+            for ie, u in zip(ies, layout):
+                if u and (ie.id, ie.len) in by_id_len:
+                    other.append(by_id_len[(ie.id, ie.len)])
+                    swapped = True
+                elif not u and rng.random() < 0.6:
+                    other.append(G.IE(55555, ie.id, 0, ie.len, ""))
+                    swapped = True
+                else:
+                    other.append(ie)
+            if swapped:
+                pres.append("dec pkt " + W.message(dom, 2, W.template_body(tid, other)).hex())
         # the collector is configured for tcp or for udp (templates with a lifetime, refreshed by re-sending them)
         proto = rng.choice(["", " udp", " tcp"])
         ops = []
